@@ -124,12 +124,7 @@ class Ctx:
 
     def ensure_static(self, targets):
         """make sure the static theory files (relative to coq/, .vo) are built and current."""
-        mk = COQ / "Makefile"
-        if not mk.exists():
-            rc, o, e = sh(["bash", str(VERIF / "setup.sh")], timeout=3600, cwd=str(VERIF))
-            if rc != 0:
-                raise CoqError("setup failed: " + o[-2000:] + e[-2000:])
-        rc, o, e = sh(["make", "-j8", *targets], timeout=3000, cwd=str(COQ))
+        rc, o, e = sh(["bash", str(VERIF / "setup.sh"), *targets], timeout=3600, cwd=str(VERIF))
         if rc != 0:
             raise CoqError("static theory does not build: " + (o + e)[-3000:])
 
@@ -330,9 +325,12 @@ class Ctx:
         (EVID / f"{self.pid}.json").write_text(json.dumps(ev, indent=1, default=str))
         for h in self.known_hits:
             print(f"KNOWN-FINDING: property={self.pid} {h['what']} [{h['key']}]")
-        for v in self.violations:
+        shown = sorted(self.violations, key=lambda v: (not v["found"], len(v["key"])))[:8]
+        for v in shown:
             tail = "" if v["found"] else " no-failing-input-found"
             print(f"VIOLATION property={self.pid} replay={v['path']}{tail}")
+        if len(self.violations) > len(shown):
+            print(f"({len(self.violations) - len(shown)} further violating cases written under {REPLAYS})")
         print(f"[{self.pid}] tier={self.tier} seed={self.seed} obligations={self.obligations} "
               f"discharged={self.discharged} cases={cov.get('correspondence_cases', 0)} "
               f"violations={len(self.violations)} known={len(self.known_hits)} wall={wall:.1f}s")
